@@ -12,6 +12,7 @@ import (
 	"regexp"
 	"runtime"
 	"runtime/debug"
+	"runtime/pprof"
 	"sort"
 	"strconv"
 	"strings"
@@ -28,6 +29,7 @@ const (
 //	verifh run <ID> [--tier quick|thorough]
 //	verifh worker <ID> --tier T --shard k/n --out file [--trace file] [--only seq]
 //	verifh replay <file>
+//
 // SelfArgsPrefix is prepended to the arguments when the binary re-executes
 // itself (workers, helper processes). Test binaries (C18 runs inside
 // testing/synctest) set it to route through their driver test.
@@ -117,6 +119,12 @@ func runWorker(args []string) int {
 		stall = 120
 	}
 	go r.watchdog(time.Duration(stall) * time.Second)
+	if pf := os.Getenv("VERIF_CPUPROFILE"); pf != "" && k == 0 {
+		if f, err := os.Create(pf); err == nil {
+			pprof.StartCPUProfile(f)
+			defer pprof.StopCPUProfile()
+		}
+	}
 	p.Run(r)
 	r.mu.Lock()
 	r.flush()
